@@ -69,8 +69,8 @@ m = {
  "engines": [
    {"name": "pathsym", "path": "vf/engine.py", "serves_properties": sorted(CLAIMED),
     "kind_free_text": "dynamic symbolic executor for the real selfies modules: proxy values (SymInt/SymBool/SymTok/SymStr) over z3, depth-first path exploration by re-execution, 16 forked workers; models replayed on the pristine package by vf/replay.py"},
-   {"name": "crosshair", "path": "vf/xhair.py", "serves_properties": [p for p in ("C14", "C15", "C01") if p in CLAIMED],
-    "kind_free_text": "CrossHair 0.0.110 on generated contract files for integer kernels and string utilities (arbitrary Unicode / unbounded ints)"}],
+   {"name": "crosshair", "path": "vf/xhair.py", "serves_properties": [p for p in ("C01", "C02", "C14") if p in CLAIMED],
+    "kind_free_text": "CrossHair 0.0.110 on contract files (vf/xh) for the integer state functions (unbounded ints; C01, C02) and the tokenisation utilities (arbitrary Unicode, len <= 8; C14)"}],
  "checks": checks,
  "notes": "exit 0 = held on everything explored (KNOWN-FINDING lines for listed findings); 1 = replayed unlisted violation; 2 = harness error / inconclusive",
  "not_applicable": na,
